@@ -265,7 +265,7 @@ class Extractor:
 
     def expand(self, ex, dirs):
         """Return list of Pieces for one @extract block."""
-        parts = [p.strip() for p in ex.arg.split("::")]
+        parts = [p.strip() for p in ex.arg.split(" :: ")]     # selectors are separated by ` :: ` (with blanks); `fmt::Display` is not split
         relfile, sels = parts[0], parts[1:]
         path = os.path.join(REPO, relfile)
         try:
@@ -725,6 +725,22 @@ class Extractor:
             if not re.match(r"^[a-z_][a-z0-9_]*$", pv):
                 raise GenError("rule R3: pattern %r is not a single variable" % pv)
             e = rl.norm_ws(expr_text)
+            # read-only variants: `for p in A.iter().rev()` / `for p in A.iter()`: index loop with `let p = &A[k];`
+            mro = re.match(r"^(.+)\.iter\(\)(\.rev\(\))?$", e)
+            if mro:
+                arr, desc = mro.group(1), bool(mro.group(2))
+                bind = " let %s = &%s[%s];" % (pv, arr, name)
+                if desc:
+                    new_head = "let mut %s: usize = %s.len();\nwhile %s > 0\n%s\n" % (name, arr, name, inv)
+                    add(head_lo, head_hi, new_head, ("rule", "R3-index-loop", cur_label, d.line))
+                    add(lp["open"] + 1, lp["open"] + 1, " %s -= 1;%s" % (name, bind), ("rule-ins", "R3-index-loop", cur_label, d.line))
+                else:
+                    new_head = "let mut %s: usize = 0;\nwhile %s < %s.len()\n%s\n" % (name, name, arr, inv)
+                    add(head_lo, head_hi, new_head, ("rule", "R3-index-loop", cur_label, d.line))
+                    add(lp["open"] + 1, lp["open"] + 1, bind, ("rule-ins", "R3-index-loop", cur_label, d.line))
+                    add(lp["close"], lp["close"], " %s += 1; " % name, ("rule-ins", "R3-index-loop", cur_label, d.line))
+                self.count("R3-index-loop")
+                return
             m1 = re.match(r"^(.+)\.iter_mut\(\)\.rev\(\)$", e)
             m2 = re.match(r"^&mut (.+)$", e)
             m3 = re.match(r"^(.+)\.iter_mut\(\)$", e)
